@@ -16,7 +16,7 @@ use crate::ring_like::digest;
 #[cfg(feature = "pem")]
 use crate::ENCODE_CONFIG;
 use crate::{
-	check_time_encodable, oid, write_distinguished_name, write_dt_utc_or_generalized,
+	check_ia5, check_time_encodable, oid, write_distinguished_name, write_dt_utc_or_generalized,
 	write_x509_authority_key_identifier, write_x509_extension, DistinguishedName, Error, Issuer,
 	KeyIdMethod, KeyPair, KeyUsagePurpose, SanType, SerialNumber,
 };
@@ -650,6 +650,18 @@ impl CertificateParams {
 	) -> Result<CertificateDer<'static>, Error> {
 		check_time_encodable(self.not_before)?;
 		check_time_encodable(self.not_after)?;
+		// These are plain `String`s that get written as `IA5String`s
+		for distribution_point in &self.crl_distribution_points {
+			distribution_point.check_uris()?;
+		}
+		if let Some(name_constraints) = &self.name_constraints {
+			let subtrees = name_constraints.permitted_subtrees.iter();
+			for subtree in subtrees.chain(&name_constraints.excluded_subtrees) {
+				if let GeneralSubtree::Rfc822Name(name) | GeneralSubtree::DnsName(name) = subtree {
+					check_ia5(name)?;
+				}
+			}
+		}
 
 		let der = issuer.key_pair.sign_der(|writer| {
 			let pub_key_spki =
